@@ -147,6 +147,7 @@ func init() {
 			ps := []*harness.Phase{
 				{Name: "required-decode", Bound: bound, Rule: "5 (thorough 7) id triples x 8 required-masks x 8 nesting positions x (64 omission pairs + 3 wrong-wire-type variants) x 6 one-call histories (none / successful same type / successful sibling type / required-missing failure / truncation failures) x pool answers with <=bound deviations; distinct by (type, message, history)", Body: func(c *explore.C) { c09Decode(c, tier) }},
 				{Name: "required-many", Rule: "a struct with 73 fields (ids 1..70, 4096, 32768, 65535; declared in descending id order) of which all / the last nine / every seventh are required: every single omission x 4 second omissions; the error must name a lacking field", Body: func(c *explore.C) { c09Many(c, tier) }},
+				{Name: "required-kinds", Rule: "the required field ranges over 24 field forms (14 base forms, zero-copy string/binary, named Go types, containers of structs and enums, holder struct) x 3 sets of neighbour fields x 4 positions x {complete, absent, wrong wire type, present twice} x with/without unknown-fields holder", Body: func(c *explore.C) { c09Kinds(c, tier) }},
 				{Name: "required-encode", Rule: "7 id triples x 8 masks x 8 positions x {zero, nil, set} values: every required field id occurs in the output", Body: func(c *explore.C) { c09Encode(c, tier) }},
 			}
 			return append(ps, e3Phases("C09")...)
